@@ -76,7 +76,7 @@ impl SearchIndex {
     pub fn commit(&mut self, doc: Option<(DocumentKey, Document)>)
         requires
             old(self).inv(),
-            doc matches Some((k, d)) ==> k.for_doc(d) && (old(self).docs().contains_key(d.did()) ==> label_key(old(self).docs()[d.did()]) == label_key(d.dmeta())),
+            doc matches Some((k, d)) ==> k.for_doc(d) && (old(self).docs().contains_key(d.did()) ==> label_key(old(self).docs()[d.did()]) == label_key(d.dmeta())), /*@PL:commit_key_matches_stored*/
         ensures
             final(self).inv(), final(self).archive() == old(self).archive(),
             final(self).docs() == (match doc {
